@@ -186,6 +186,7 @@ void Avtp_Vss_DeserializeStringArray(VssDataStringArray_t* vss_data_string_array
             memcpy(strings[i]->data, array_data+2, strings[i]->data_length);
         }
         array_data += 2 + strings[i]->data_length;
+        idx += 2 + strings[i]->data_length;
     }
 }
 
